@@ -15,7 +15,7 @@ RULE = ("cases are import graphs (DAGs) over up to 4 (quick) / 5 (thorough) modu
         "Hypothesis graphs. Oracle: a depth-first simulation (each module once, at its first executed import, completed before "
         "the importer continues; one counter per module shared by all importers) prescribes the exact trace, checked under `run` "
         "and under `compile` + `execute`; negative variants (use of a private name, assignment through the module object) must be "
-        "rejected at compile time. Non-trivial = a module imported by >= 2 others or imported in both forms; distinct by graph")
+        "rejected at compile time; three programs in which a class of an imported module refers to itself (`Self(..)`) while an importer owns a class or variable of the same name. Non-trivial = a module imported by >= 2 others or imported in both forms; distinct by graph")
 ASSUMPTIONS = ["assignment to a name imported with `import a from m` creates a local shadow (documented by the repository's tests), so only `m.a = v` is used as the negative write"]
 
 
@@ -180,16 +180,50 @@ def negative_scenario(kind):
                         {"kind": "stdout_lacks", "step": "run", "value": "@start"}, {"kind": "stdout_lacks", "step": "run", "value": "m1 init"}]}
 
 
+def special_scenario(kind):
+    """module instances keep their OWN names apart: a class of an imported module that refers to itself (`Self(..)`) while an importer
+    - at its top level, or in a running function - has a class / variable with the same name"""
+    shapes = ("print \"shapes init\"\nexport class Shape {\n\tv: int\n\tconstructor(self, v: int) {\n\t\tself.v = v\n\t}\n\tfn twin(self) -> Self {\n\t\treturn Self(self.v + 1)\n\t}\n}\n"
+              "export made: int = 0\nexport make: fn(int) -> int = fn(n: int) -> int {\n\ts = Shape(n)\n\tt = s.twin()\n\tmodify made = made + 1\n\treturn t.v\n}\n")
+    own = "class Shape {\n\tv: int\n\tconstructor(self, v: int) {\n\t\tself.v = v * 1000\n\t}\n\tfn twin(self) -> Self {\n\t\treturn Self(self.v)\n\t}\n}\n"
+    if kind == "self-in-imported-class:importer-top-level":
+        a = own + "import shapes\nprint \"a \" + shapes.make(2)\nmine = Shape(1)\nprint \"a own \" + mine.twin().v\n"
+        main = "import a\nimport shapes\nprint \"main \" + shapes.make(5)\nprint shapes.made\nprint \"@end\"\n"
+        exp = ["shapes init", "a 3", "a own 1000000", "main 6", "2", "@end"]
+        files = {"main.ms": main, "a.ms": a, "shapes.ms": shapes}
+    elif kind == "self-in-imported-class:entry-module":
+        main = own + "import shapes\nprint \"main \" + shapes.make(5)\nmine = Shape(2)\nprint mine.twin().v\nprint shapes.made\nprint \"@end\"\n"
+        exp = ["shapes init", "main 6", "2000000", "1", "@end"]
+        files = {"main.ms": main, "shapes.ms": shapes}
+    elif kind == "self-in-imported-class:from-function":
+        main = "import shapes\ngo = fn() -> int {\n\tShape = 7\n\treturn shapes.make(Shape)\n}\nprint go()\nprint shapes.made\nprint \"@end\"\n"
+        exp = ["shapes init", "8", "1", "@end"]
+        files = {"main.ms": main, "shapes.ms": shapes}
+    else:
+        raise ValueError(kind)
+    return make_scenario(files, exp)
+
+
+SPECIALS = ["self-in-imported-class:importer-top-level", "self-in-imported-class:entry-module", "self-in-imported-class:from-function"]
 NEGATIVES = ["private-via-module", "private-via-names", "write-module-member", "write-through-module-alias", "opassign-through-module-alias", "wrong-type-use"]
 
 
 def describe(case):
+    if "special" in case:
+        return "special:" + case["special"]
     if "negative" in case:
         return "negative:" + case["negative"]
     return "n=%d layout=%s%s%s edges=%s" % (case["n"], case["layout"], (" infn=%s" % case["infn"]) if case.get("infn") else "", (" profiles=%s" % sorted((case.get("profiles") or {}).items())) if case.get("profiles") else "", " ".join("%d>%d:%s@%d%s" % (i, j, f[0], s, "." if d else "") for i, j, f, s, d in case["edges"]))
 
 
 def check(case):
+    if "special" in case:
+        sc = special_scenario(case["special"])
+        res, fails, _ = scenario.execute(sc)
+        r = CaseResult(nt_keys=["special:" + case["special"]], labels=["special=" + case["special"].split(":")[0]], sample={"case": case["special"]})
+        if fails:
+            r.failure = fail(case["special"] + ": " + "; ".join(fails)[:900], "C11:special:" + case["special"], sc, case=case)
+        return r
     if "negative" in case:
         sc = negative_scenario(case["negative"])
         res, fails, _ = scenario.execute(sc)
@@ -231,7 +265,7 @@ def all_dags(n):
 
 
 def enumerated(tier, seed):
-    cases = [{"negative": k} for k in NEGATIVES]
+    cases = [{"negative": k} for k in NEGATIVES] + [{"special": k} for k in SPECIALS]
     maxn = 3 if tier == "quick" else 4
     for n in range(2, maxn + 1):
         for es in all_dags(n):
